@@ -173,7 +173,14 @@ pub fn run(seed: u64, count: usize, outdir: &str) -> std::io::Result<i32> {
         let cfg = DagCfg { max_ops: *r.pick(&[3, 8, 16, 30]), max_outputs: 1, max_free_vars: *r.pick(&[0, 0, 2]),
             p_recent: *r.pick(&[0.3, 0.7]), p_const_operand: *r.pick(&[0.15, 0.35]), p_special_const: 0.02,
             choice_heavy: false, no_hash: true, const_roots: false, choice_chain: if r.chance(0.3) { r.range(2, 8) } else { 0 } };
-        let dag = gen_dag(&mut r, &cfg);
+        let mut dag = gen_dag(&mut r, &cfg);
+        // one case in eight: 20..70 further variables, all read (input loads beyond small displacements in the gradient evaluator)
+        if r.chance(0.125) {
+            let extra = r.range(20, 70);
+            let mut acc = *dag.roots.last().unwrap();
+            for _ in 0..extra { let v = Var::new(); dag.vs.push(v); let n = dag.ctx.var(v); let c = gen_tame(&mut r); let m = dag.ctx.mul(n, c).unwrap(); acc = dag.ctx.add(acc, m).unwrap(); }
+            dag.roots = vec![acc];
+        }
         let roots = all_nodes(&dag, 40);
         let dag = Dag { ctx: dag.ctx, roots: roots.clone(), vs: dag.vs };
         for n in &roots { *ops_seen.entry(op_name(&dag, *n)).or_default() += 1; }
@@ -219,7 +226,9 @@ pub fn run(seed: u64, count: usize, outdir: &str) -> std::io::Result<i32> {
                     let w: f64 = terms.iter().sum();
                     let wmag: f64 = terms.iter().map(|v| v.abs()).sum();
                     if w.abs() > 0.05 * wmag && wmag < 1e6 {
-                        let (gx, gy, gz) = <Grad as Transformable>::transform(Grad::new(p[0], 1.0, 0.0, 0.0), Grad::new(p[1], 0.0, 1.0, 0.0), Grad::new(p[2], 0.0, 0.0, 1.0), &tmat);
+                      // unit seeds, and seeds that are not the unit axes (the inputs may themselves depend on three other parameters)
+                      for sd in [[[1.0f32, 0.0, 0.0], [0.0, 1.0, 0.0], [0.0, 0.0, 1.0]], [seeds[1][0], seeds[1][1], seeds[1][2]]] {
+                        let (gx, gy, gz) = <Grad as Transformable>::transform(Grad::new(p[0], sd[0][0], sd[0][1], sd[0][2]), Grad::new(p[1], sd[1][0], sd[1][1], sd[1][2]), Grad::new(p[2], sd[2][0], sd[2][1], sd[2][2]), &tmat);
                         for (i, gi) in [gx, gy, gz].iter().enumerate() {
                             let rt = [m(i, 0) * pp[0], m(i, 1) * pp[1], m(i, 2) * pp[2], m(i, 3)];
                             let ti: f64 = rt.iter().sum::<f64>() / w;
@@ -227,13 +236,15 @@ pub fn run(seed: u64, count: usize, outdir: &str) -> std::io::Result<i32> {
                             let d = [gi.dx as f64, gi.dy as f64, gi.dz as f64];
                             let mut bad_lane = None;
                             if (gi.v as f64 - ti).abs() > 1e-4 * (mag + 1e-6) { bad_lane = Some(format!("value {} expected {ti}", gi.v)); }
-                            for j in 0..3 {
-                                let want = (m(i, j) - ti * m(3, j)) / w;
-                                let dm = (m(i, j).abs() + mag * m(3, j).abs()) / w.abs();
-                                if (d[j] - want).abs() > 1e-3 * (dm + 1e-6) { bad_lane = Some(format!("d T_{i} / d p_{j} = {} expected {want}", d[j])); }
+                            for k in 0..3 {
+                                // lane k: sum_j dT_i/dp_j * seed_j[k]
+                                let want: f64 = (0..3).map(|j| (m(i, j) - ti * m(3, j)) / w * sd[j][k] as f64).sum();
+                                let dm: f64 = (0..3).map(|j| (m(i, j).abs() + mag * m(3, j).abs()) / w.abs() * (sd[j][k] as f64).abs()).sum();
+                                if (d[k] - want).abs() > 1e-3 * (dm + 1e-6) { bad_lane = Some(format!("lane {k} of T_{i} = {} expected {want} (seeds {sd:?})", d[k])); }
                             }
                             if let Some(b) = bad_lane { tbad.push(format!("kind=transform-gradient backend=vm Transformable for Grad: {b}; matrix {:?} point {:?}", tmat.as_slice(), p)); break; }
                         }
+                      }
                     }
                 }
             }, Err(_) => text.push_str(" | t panic") }
@@ -250,6 +261,12 @@ pub fn run(seed: u64, count: usize, outdir: &str) -> std::io::Result<i32> {
         let mut bad = vec![];
         bad.extend(tbad);
         let jrows = grad_eval(&jit, &dag.vs, &pts, &seeds);
+        // ---- the value lane of the JIT's gradient evaluation is the interpreter's, at every point (rounding-edge values included)
+        if let (Ok(vr), Ok(jr)) = (&vrows, &jrows) {
+            'outer: for (k, (a, b)) in vr.iter().zip(jr).enumerate() { for (o, (x, y)) in a.iter().zip(b).enumerate() {
+                if canon_bits(x.v) != canon_bits(y.v) && !(x.v == 0.0 && y.v == 0.0) && !x.v.is_nan() {
+                    bad.push(format!("kind=jit-gradient-value-differs backend=jit point {k} output {o} ({}): value lane {} interpreter {}", op_name(&dag, roots[o.min(roots.len() - 1)]), y.v, x.v)); break 'outer; } } }
+        }
         // ---- register pressure: the same tape allocated into 3 and 4 registers (loads / stores of spilled gradients)
         // computes the same operations in the same order, so the rows are the interpreter's bit for bit
         if let Ok(rows) = &vrows {
